@@ -14,6 +14,9 @@ FIXED = [
  ("C04", "write/err", "fix: restore_active_blob loads", "write after try_restore_active_blob of a blob whose index was dumped fails with 'Index is closed' (bytes appended anyway)"),
  ("C14", "cancel/close_active-drops-blob", "fix: close_active_blob syncs", "try_close_active_blob dropped (or failing) during fsync detaches the active blob: its records answer NotFound until restart"),
  ("C03", "read/mismatch", "fix: index validation rejects", "index file of a closed blob truncated at almost any length is accepted at start-up: keys silently NotFound or every read errors"),
+ ("C11", "read/mismatch", "fix: a failed index dump keeps", "failed index dump (index file cannot be written) empties the in-memory index: all records of the blob NotFound until restart"),
+ ("C11", "read_all_with_deletion_marker/len", "fix: index regeneration rejects a tail", "tail record cut inside meta/data (torn write, failed second buffer) is indexed by the start-up scan when data validation is off"),
+ ("C11", "read_all_with_deletion_marker/load-err", "fix: existing blobs are opened for positional", "reopened blobs use O_APPEND: after a failed/short write every later acknowledged record lands at another offset than its header says and is unreadable"),
  ("C15", "blobs_count/mismatch", "fix: HierarchicalFilters::len", "blobs_count counts empty slots after restore (2 with one blob file)"),
  ("C15", "disk_used/mismatch", "fix: disk_used counts", "disk_used omits an index file that exists while its index is in memory"),
  ("C07", "harm/blob-id-reused", "fix: blob ids of quarantined", "id of a quarantined blob is reused for a new blob after a restart (a later quarantine would overwrite the saved file)"),
@@ -24,6 +27,7 @@ FIXED = [
  ("C12", "sync/explicit-fsyncdata-noop", "fix: Storage::fsyncdata always", "explicit fsyncdata() issues no sync below the dirty-byte limit"),
 ]
 OPEN = [
+ ("C11", "fault/failed-write-resurrected-after-index-regeneration", "a write that returned Err after its header (or the whole record) had reached the blob file is indexed by the next start-up scan when the index file is missing/stale and data validation is off: contains/read_all list it although it was reported as failed (read of its data fails the checksum unless the whole record was written)"),
  ("C16", "validate_blob/accepts-flip/blob-header-version", "validate_blob ignores the blob header's version field (validate_without_version): any bit flip in bytes 8..12 of a blob is accepted"),
  ("C16", "validate_blob/accepts-flip/blob-header-flags", "no check covers the blob header's flags field: any bit flip in bytes 12..20 of a blob is accepted by validate_blob (and by the storage)"),
  ("C16", "validate_blob/accepts-flip/meta", "record metadata bytes are covered by no checksum: a flipped byte inside a record's meta section is accepted whenever bincode still decodes the map"),
